@@ -147,6 +147,16 @@ def build_ops(sig, rng):
         if ss:
             nza = near_zero(rng, ss[:1])
             add("time_shift_nearzero_arr", "nearzero_array", lambda: pb.time_shift(sig, nza))
+        if ss and ss[0] > 1:
+            mixed = rng.uniform(0.5, 2, size=ss[:1])
+            mixed[int(rng.integers(ss[0]))] = float(gen.pick(rng, [5.5e-17, -3e-12, 1e-9, 8e-9]))
+            add("time_shift_mixed_tiny", "array_mixed_tiny", lambda: pb.time_shift(sig, mixed, crop=bool(rng.integers(2))))
+            big = np.zeros((ss[0], 2))
+            big[:, 0] = mixed
+            view = big[:, 0]
+            add("time_shift_mixed_tiny_view", "array_mixed_tiny", lambda: pb.time_shift(sig, view))
+            wrong = np.concatenate([mixed, [1e-12, 2.0]])
+            add("time_shift_mixed_tiny_bad_shape", "invalid", lambda: pb.time_shift(sig, wrong))
         shq = (np.atleast_1d(np.asarray(sh_arr, dtype=float)).ravel()[:1] / sr).to(u.s)
         add("time_shift_q", "quantity", lambda: pb.time_shift(sig, shq[0]))
         lst_shift = [0.5] * ss[0] if ss else 0.5
